@@ -121,9 +121,14 @@ ChipEnforced ==
    bitwise |-> [inner |-> {"a", "b", "abit0", "abit1", "abit2", "abit3", "bbit0", "bbit1", "bbit2", "bbit3", "zp", "z"}, \* a' = 16 a + bits', z' = 16 zp' + op(bits'), zp' = z
                 boundary |-> {"a", "b", "abit0", "abit1", "abit2", "abit3", "bbit0", "bbit1", "bbit2", "bbit3", "zp", "z"}], \* first row of a cycle: a' = bits', zp' = 0
    \* memory: the delta limbs d0, d1 and the inverse t are functions of (ctx, addr, clk) of both rows; a read of an address
-   \* accessed before returns the old word, a read of a new address returns zeros
-   \* (the inverse t' is free when neither the context nor the address changes: n0 = n1 = 0 for any t')
-   memory |-> [writesame |-> {"d0", "d1"}, writenew |-> {"d0", "d1", "dinv"},
-               readsame |-> {"d0", "d1", "v0", "v1", "v2", "v3"}, readnew |-> {"d0", "d1", "dinv", "v0", "v1", "v2", "v3"}],
+   \* accessed before returns the old word, a read of a new address (same context or a new context) returns zeros
+   \* (the inverse t' is free when neither the context nor the address changes: n0 = n1 = 0 for any t');
+   \* the selector s1' is a function of the row pair: 1 exactly for a read of the same (context, address), 0 otherwise
+   \* (memory.md: "s1 is always set to 1 during read operations when the context and address did not change and to 0 in
+   \* all other cases")
+   memory |-> [writesame |-> {"d0", "d1", "sel1"}, writenewaddr |-> {"d0", "d1", "dinv", "sel1"}, writenewctx |-> {"d0", "d1", "dinv", "sel1"},
+               readsame |-> {"d0", "d1", "v0", "v1", "v2", "v3", "sel1"},
+               readnewaddr |-> {"d0", "d1", "dinv", "v0", "v1", "v2", "v3", "sel1"},
+               readnewctx |-> {"d0", "d1", "dinv", "v0", "v1", "v2", "v3", "sel1"}],
    range |-> [step |-> {"v"}]]                                                                                          \* v' - v is 0 or a power of three up to 3^7
 =============================================================================
